@@ -293,6 +293,8 @@ PlayAfterSeekLoopFails(ev, sg, c, from) ==
   LET li == LoopInfo(sg) IN
   \* a target at or behind the loop end is outside the property's quantifier; a degenerate loop (start = end) is judged by C09 only
   IF (li.valid /\ li.any /\ (from + SeekSlackUs >= li.et \/ li.st = li.et)) THEN {}
+  \* a tempo event among the items lost in the loopEnd row (F26) shifts every later time: left to the C09 monitors of complete plays
+  ELSE IF li.valid /\ li.any /\ li.hasE /\ (\E i \in DOMAIN sg.its : sg.its[i].tick = li.etick /\ sg.its[i].trk = li.etrk /\ sg.its[i].k = "tempo") THEN {}
   ELSE PASLF(ev, c, from, EntriesOf(ev.calls, "e"), Gated(sg, sg.its, c.enabled, c.solo), li)
 
 StepInit(ev) == /\ song' = [none |-> TRUE] /\ cfg' = [Cfg0 EXCEPT !.rate = ev.rate] /\ pos' = Pos0 /\ exec' = exec + 1 /\ fails' = fails /\ drift' = drift
